@@ -20,7 +20,7 @@ try:
     for p in from_props:
         r = subprocess.run(['./check', p, '--repo', wt, '--no-evidence'], cwd='/verif', capture_output=True, text=True)
         if r.returncode:
-            rules = sorted({l.split()[1] for l in r.stdout.splitlines() if l.startswith('  /') and len(l.split()) > 1})
+            rules = sorted({w for l in r.stdout.splitlines() if l.startswith('  ') for w in l.split()[:3] if w.startswith('R-')})
             checks[p] = {'exit': r.returncode, 'rules': rules}
 finally:
     subprocess.run(['git', '-C', '/repo', 'worktree', 'remove', '--force', wt])
